@@ -208,6 +208,7 @@ static int gen_general(Tape &t, Ctx &cx, unsigned n, std::vector<R> &M, int &exp
 }
 
 // ---------------------------------------------------------------------------------------
+static std::vector<R> g_extracted_x, g_extracted_b; // a solve done with the extracted factors, judged once the residual helper exists
 static void check_plu(Tape &t, Ctx &cx, unsigned n)
 {
     std::vector<R> A0;
@@ -312,6 +313,19 @@ static void check_plu(Tape &t, Ctx &cx, unsigned n)
                 VP_CHECK(cx, Ux.p[size_t(i) * n + j] == R(Um[size_t(i) * n + j]), "plu:U", "plu_U(%u,%u) wrong", i, j);
             }
         }
+        if (cls != 12)
+        {
+            // forward / back substitution with the extracted factors (the documented arguments of plu_lower / plu_upper)
+            std::vector<R> b2(n);
+            Blk pb2(n), bb2(n);
+            for (unsigned i = 0; i < n; ++i) { b2[i] = R(int((i * 5u + n) % 13u) - 6); bb2.p[i] = b2[i]; }
+            a_real_plu_apply(n, p, bb2.p, pb2.p);
+            a_real_plu_lower(n, Lm.p, pb2.p);
+            a_real_plu_upper(n, Ux.p, pb2.p);
+            g_extracted_x.assign(pb2.p, pb2.p + n);
+            g_extracted_b = b2;
+        }
+        else { g_extracted_x.clear(); }
     }
     // |L||U| row sums against |x|: W = P^T |L||U|
     std::vector<LD> W(size_t(n) * n, 0);
@@ -338,6 +352,7 @@ static void check_plu(Tape &t, Ctx &cx, unsigned n)
             if (!(fabsl(s) <= bound)) { cx.fail(sig, "%s: |b - A x|(%u) = %.3Lg exceeds %.3Lg (n=%u, class %d)", what, i, fabsl(s), bound, n, cls); }
         }
     };
+    if (!g_extracted_x.empty() && finite_all(g_extracted_x.data(), n)) { resid(g_extracted_x.data(), g_extracted_b, "plu:solve_with_extracted_factors", "plu_lower / plu_upper on the factors returned by plu_L / plu_U", 1); }
     bool extreme = cls == 12; // (with pivots near both ends of the range the solution itself leaves the normal range)
     if (!extreme)
     {
@@ -633,6 +648,20 @@ static void check_sym(Tape &t, Ctx &cx, unsigned n, int kind)
         {
             for (unsigned j = 0; j < n; ++j) { VP_CHECK(cx, Lx.p[size_t(i) * n + j] == R(L[size_t(i) * n + j]), kind ? "llt:L" : "ldl:L", "%s_L(%u,%u) wrong", nm, i, j); }
         }
+        if (kind && !extreme)
+        {
+            // the Cholesky solves take "the lower triangular matrix L, stored in row-major order": the extracted factor (zeros
+            // above the diagonal) is as good an argument as the in-place buffer
+            std::vector<R> b2(n);
+            for (unsigned i = 0; i < n; ++i) { b2[i] = R(int((i * 7u + n) % 11u) - 5); }
+            Blk y(n);
+            memcpy(y.p, b2.data(), sizeof(R) * n);
+            a_real_llt_lower(n, Lx.p, y.p);
+            a_real_llt_upper(n, Lx.p, y.p);
+            g_extracted_x.assign(y.p, y.p + n);
+            g_extracted_b = b2;
+        }
+        else { g_extracted_x.clear(); }
     }
     // symmetric full matrix for residuals (the input is symmetric by construction)
     auto resid = [&](R const *x, std::vector<R> const &b, char const *sig, char const *what, unsigned mi) {
@@ -649,6 +678,7 @@ static void check_sym(Tape &t, Ctx &cx, unsigned n, int kind)
             if (!(fabsl(s) <= bound)) { cx.fail(sig, "%s: |b - A x|(%u) = %.3Lg exceeds %.3Lg (n=%u, class %d)", what, i, fabsl(s), bound, n, cls); }
         }
     };
+    if (!g_extracted_x.empty() && finite_all(g_extracted_x.data(), n)) { resid(g_extracted_x.data(), g_extracted_b, "llt:solve_with_extracted_factor", "llt_lower + llt_upper on the factor returned by llt_L", 1); }
     if (!extreme) // (with pivots near both ends of the range the solution itself leaves the normal range)
     {
         std::vector<R> b(n);
